@@ -501,6 +501,17 @@ def blockKey (b : BBox) : Nat :=
   | .ok id => id
   | _ => 0
 
+/-- the final header (writer.rs:64, 100-113) -/
+def mkHeader (s : Source) (rootLen leavesLen dataLen n : Nat) : Header := {
+  root := ⟨127, rootLen⟩, metaR := ⟨16384, s.metaB.length⟩,
+  leaf := ⟨16384 + s.metaB.length + dataLen, leavesLen⟩,
+  data := ⟨16384 + s.metaB.length, dataLen⟩, addressed := n, entries := n,
+  contents := n, clustered := true, icomp := 2, tcomp := compCode s.comp,
+  ttype := typeCode s.fmt,
+  minz := (s.levels.head?.map (·.level)).getD 0, maxz := (s.levels.getLast?.map (·.level)).getD 14,
+  minlon := s.minlon, minlat := s.minlat, maxlon := s.maxlon, maxlat := s.maxlat,
+  cz := s.cz, clon := s.clon, clat := s.clat }
+
 /-- `PMTilesWriter::write_to_writer` (writer.rs:51-118); `enc` = gzip (internal compression) -/
 def write (enc : Bytes → Bytes) (s : Source) : Outcome Bytes :=
   let blocks := (s.levels.flatMap grid256).mergeSort (fun a b => blockKey a ≤ blockKey b)
@@ -512,14 +523,7 @@ def write (enc : Bytes → Bytes) (s : Source) : Outcome Bytes :=
       match asDirectory enc (16384 - 127) entries with
       | .ok (root, leaves) =>
         let dataEnd := dataStart + data.length
-        let h : Header := {
-          root := ⟨127, root.length⟩, metaR := ⟨16384, s.metaB.length⟩, leaf := ⟨dataEnd, leaves.length⟩,
-          data := ⟨dataStart, data.length⟩, addressed := entries.length, entries := entries.length,
-          contents := entries.length, clustered := true, icomp := 2, tcomp := compCode s.comp,
-          ttype := typeCode s.fmt,
-          minz := (s.levels.head?.map (·.level)).getD 0, maxz := (s.levels.getLast?.map (·.level)).getD 14,
-          minlon := s.minlon, minlat := s.minlat, maxlon := s.maxlon, maxlat := s.maxlat,
-          cz := s.cz, clon := s.clon, clat := s.clat }
+        let h := mkHeader s root.length leaves.length data.length entries.length
         let f := writeAt [] 16384 s.metaB
         let f := writeAt f dataStart data
         let f := writeAt f 127 root
